@@ -96,8 +96,21 @@ def is_scalar(x):
     return not isinstance(x, Expr)
 
 
+def _keep_dict_order(obj):
+    # dask tokenizes a dict by its sorted items; the order of a dict operand
+    # can decide the result (the column order of ``groupby.agg({...})``), so
+    # two specs that differ only in order must not share a name
+    if type(obj) is dict:
+        return ("__ordered_dict__", [(k, _keep_dict_order(v)) for k, v in obj.items()])
+    if type(obj) in (list, tuple):
+        return type(obj)(_keep_dict_order(o) for o in obj)
+    return obj
+
+
 def _tokenize_deterministic(*args, **kwargs) -> str:
     # Utility to be strict about deterministic tokens
+    args = tuple(_keep_dict_order(a) for a in args)
+    kwargs = {k: _keep_dict_order(v) for k, v in kwargs.items()}
     with config.set({"tokenize.ensure-deterministic": True}):
         return tokenize(*args, **kwargs)
 
